@@ -1,10 +1,47 @@
+import os, sys
+sys.path.insert(0, os.path.dirname(os.path.dirname(os.path.abspath(__file__))))
+import checklib
+
+R = "ds/reactive/"
+SKELETONS = [
+    R + "variable_impl.go:variable.Compute", R + "variable_impl.go:variable.updateValue",
+    R + "variable_impl.go:readableVariable.OnUpdate", R + "variable_impl.go:readableVariable.Get",
+    R + "variable_impl.go:variable.InheritFrom",
+    R + "utils.go:callback.LockExecution", R + "utils.go:callback.MarkUnsubscribed",
+    R + "set_impl.go:set.Apply", R + "set_impl.go:readableSet.OnUpdate",
+    R + "set_impl.go:derivedSet.inheritMutations", R + "set_impl.go:derivedSet.applyInheritedMutations",
+    R + "counter_impl.go:counter.Monitor",
+    R + "sorted_set_impl.go:sortedSet.addSorted", R + "sorted_set_impl.go:sortedSet.deleteSorted",
+    R + "sorted_set_impl.go:sortedSet.Ascending",
+    R + "wait_group_impl.go:waitGroup.Add", R + "wait_group_impl.go:waitGroup.Done",
+    R + "eviction_state_impl.go:evictionState.Evict", R + "eviction_state_impl.go:evictionState.evict",
+    R + "eviction_state_impl.go:evictionState.EvictionEvent",
+]
+EXTRA = ["LockExecution", "UnlockExecution", "MarkUnsubscribed", "Invoke", "Trigger", "OnUpdate", "Compute", "Set", "Get",
+         "Add", "Delete", "unsubscribeFromWeightUpdates", "updatePosition", "Apply"]
+
+
+def regen(ctx):
+    return checklib.regen_skeletons(ctx, SKELETONS, extra_methods=EXTRA)
+
+
 SPEC = {
     "lean_props": "Hive.Props.C14",
-    "lean_namespace": "Hive.Derived",
+    "regen": regen,
+    "lean_namespace": ["Hive.Derived", "Hive.Gen.C14Skel"],
     "driver": "drv_c14",
     "harness": "c14",
     "harness_timeout": {"quick": 900, "thorough": 6000},
-    "trusted_base": [],
+    "theorems": [
+        "C14_derived_set", "C14_derived_set_counts", "C14_subtract", "C14_counter", "C14_eviction", "C14_eviction_unique",
+        "C14_eviction_pre", "C14_waitgroup_sequential",
+    ],
+    "trusted_base": [
+        "hand-written models lean/Hive/Model/Derived*.lean of ds/reactive, tied by (1) line-by-line differential execution of the sequential models, "
+        "(2) quiescence predicates (Hive/Spec/Derived.lean) evaluated by the Lean driver on values read from the real code after concurrent stress, "
+        "(3) regenerated synchronisation skeletons (Hive/Gen/C14_Skel.lean) compared with the skeletons the protocol models and lock scripts were written against",
+        "Go toolchain, compiled Lean driver, harness/tools/extract-sync",
+    ],
     "modelled": [],
     "manifest": {},
     "assumptions": [],
